@@ -30,14 +30,14 @@ All twenty properties are claimed in `MANIFEST.json`; `not_applicable` is empty.
 | id | model (`Model/`) | property theorems (`Props/Cxx.lean`) | decided on the implementation only (partial) |
 |----|------------------|--------------------------------------|-----------------------------------------------|
 | C01 | Prim, Prog, Header, Body | `read_write`, `write_ok_decodes`, `write_fails_loudly`, `write_dim_mismatch`, `missing_iff_conf_zero` | numpy dtype narrowing, `struct` |
-| C02 | same | `write_layout`, `read_of_reference`, `rewrite_identity`, `write_read_write` | independent reference encoder `harness/refenc.py` |
+| C02 | same, SpecEnc (`specFile`) | `write_layout`, `read_of_reference`, `rewrite_identity`, `write_read_write` | the Lean reference encoder is compared byte for byte with an independent Python one (`harness/refenc.py`) |
 | C03 | Stream, Body (windows) | `window_eq_slice`, `stream_eq_bytes`, `stream_window_eq_slice`, `cache_neutral`, `consumption_bound`, rejection lemmas | time→frame rounding evaluated at `Float` |
-| C04 | Body (v0.0 / v0.1) | `readV01_enc`, `legacy_rewrite_v01`, `other_version_refused`, `v00_window_ignored`, `v01_window_eq_slice`, `legacy_stream_eq_bytes` | v0.0 reference decode checked by the reference encoder |
+| C04 | Body (v0.0 / v0.1), SpecEnc (`specFileV01`, `specFileV00`) | `readV01_enc`, `legacy_rewrite_v01`, `readV00_enc`, `legacy_rewrite_v00`, `other_version_refused`, `v00_window_ignored`, `v01_window_eq_slice`, `legacy_stream_eq_bytes` | numpy `column_stack` / `ma.concatenate` error behaviour on irregular v0.0 files |
 | C05 | JS | `js_index`, `js_conf_index`, `jsDims_eq`, `js_agrees_v02`, `js_agrees_v01` | `binary-parser` stand-in |
 | C06 | Cache | `read_pure`, `results_disjoint`, `mutation_local`, `other_calls_preserve`, `pose_independent_of_cache` | md5 idealised injective |
 | C07 | Prog (`Rel`/`Blind`/`SkipFree`), Stream | `truncated_rejected`, `truncated_rejected_stream_full`, `trailing_ignored(_any)`, `truncated_window_stream(_slice)` (via `Proofs/StreamRev.sr_agree`) | windowed stream clause with a warm header cache |
 | C08 | PoseOps | `backends_agree`, `convert_eq`, `missing_all_dims_iff_conf_zero`, `getPoints/selectFrames/sliceStep_agree`, `matmul_point_view` | torch / tf primitives |
-| C09 | PoseOps, Spatial, Interp, Normalize | `visEq_view`, `zeroFilled_exact`, `…_ni` for nine operations, `run_ni`, `program_noninterference`; `Props/C09Norm`: `normalize_ni`, `normalizeDistribution_ni`, `runN_ni` | 3-D normaliser (K4), splines, representations, augmentation, serialisation: two-run execution |
+| C09 | PoseOps, Spatial, Interp, Normalize | `visEq_view`, `zeroFilled_exact`, `…_ni` for nine operations, `run_ni`, `program_noninterference`; `Props/C09Norm`: `normalize_ni`, `normalizeDistribution_ni`, `runN_ni`; `Props/C09Repr`: `rep2_ni`, `rep3_ni`, `pointsRepRows_ni`, `forward_ni` (the assembled representation) | 3-D normaliser (K4), splines, augmentation, serialisation: two-run execution |
 | C10 | Tensor, Masked | `run_refines`, `shapes_identical`, `elementwise_valid_iff`, `strict_sum_valid_iff`, `mean_valid_iff`, `zero_filled_exact` | — |
 | C11 | Select | `select_component(_all)`, `pointIndex_go`, `remove_eq_select_complement`, `remove_points_eq_select`, `select_limbs_names` | known-format helpers (hide legs, wrists, holistic reduction) |
 | C12 | PoseSeq (+ all body models) | `step_inv`, `run_inv`, `wf_pointwise`, `fits_of_inv`, `serialisable` | mask effects of the normalisers, dropouts' draws, torch / tf bodies |
@@ -45,9 +45,9 @@ All twenty properties are claimed in `MANIFEST.json`; `not_applicable` is empty.
 | C14 | Interp | `linear_affine_exact`, `linear_identity_at_observations`, `linear_within_neighbours`, `interp_frames_fps`, `linspace_ends`, `track_zero_outside_window`, `before_window` | quadratic / cubic interpolants (scipy) |
 | C15 | Spatial, PoseOps | `bbox_tight`, `focus_min_zero`, `flip_neg_only`, `flip_involutive`, `matmul_id_2/3`, `matmul_linear_2/3`, `augment_id_when_std_zero` | cos / sin of the drawn angle |
 | C16 | Frames, PoseOps | `select_exact`, `step_exact`, `dropout_kept`, `dropout_length`, `dropout_count`, `dropout_keeps_one`, `tf_dropout_kept`, `tf_dropout_keeps_one` | the random draws themselves |
-| C17 | Represent | `…_missing_zero` (4), `…_not_nan` (3), `distance_formula`, `angle_formula`, `innerAngle_formula`, `pointLine_formula` (Heron), `limbPoints_spec`, `limbPoints_in_range`, `mem_trianglePoints`, `output_size_is_row_count`, `pointsRep_row`, `groupEmbeds_entry` | IEEE overflow / `acos(1+ε)`; `atan`, `acos` |
+| C17 | Represent | `…_missing_zero` (4), `…_not_nan` (3), `distance_formula`, `angle_formula`, `innerAngle_formula`, `pointLine_formula` (Heron), `limbPoints_spec`, `limbPoints_in_range`, `mem_trianglePoints`, `output_size_is_row_count`, `pointsRep_row`, `groupEmbeds_entry`; end to end (`poseRepresentation`): `forward_shape`, `forward_point_entry`, `forward_limb_entry`, `forward_triple_entry` | IEEE overflow / `acos(1+ε)`; `atan`, `acos` |
 | C18 | Concurrent | `step_inv`, `reads_isolated(_gen)`, `finishes_after_two_steps` | preemption inside a source line |
-| C19 | OpenPose | `locate_offset`, `openpose_cell`, `openpose_absent`, `openpose_present`, `openpose_short_component`, `loaded_meta`, `frame_id_conforming` | JSON parsing |
+| C19 | OpenPose | `locate_offset`, `openpose_cell`, `openpose_absent`, `openpose_present`, `openpose_short_component`, `loaded_meta`, `frame_id_conforming`, `frame_id_last_group`, `frame_id_documented` | JSON parsing |
 | C20 | Collate | `collate_masked`, `collate_ints`, `collate_strings`, `collate_masked_field`, `padData_*` | torch `stack` / `cat` |
 
 Helper lemmas live in `Proofs/` (codec algebra `Codec*.lean`, stream simulation `Stream*.lean`, windows `Window*.lean`, nested-array toolkit
@@ -56,13 +56,14 @@ lemma `NormLift.lean`), and per-property `Proofs/CxxLemmas.lean` (C08, C10, C13,
 next to the property theorems were moved there with `tools/split_props.py`, so that `Props/Cxx.lean` holds the property theorems and their
 non-vacuity examples only). C09, C11, C12, C15, C16 keep their statement vocabulary (`VisEq`, `BOp`, `PInv`, `Pre`, …) and a handful of
 three-line helpers in the `Props` file on purpose: the definitions are part of what the theorems say. `Props/C09Norm.lean` extends C09's
-program theorem to the two normalisers (`normalize_ni`, `normalizeDistribution_ni`, `runN_ni`). Everything is audited alike (`collectAxioms` is transitive).
+program theorem to the two normalisers (`normalize_ni`, `normalizeDistribution_ni`, `runN_ni`), `Props/C09Repr.lean` to the feature representations and their assembly.
+The reference encoders written from `docs/specs` (`specFile`, `specFileV01`, `specFileV00`) sit in `Model/SpecEnc.lean` so that the driver can run them (`spec_file`). Everything is audited alike (`collectAxioms` is transitive).
 
 ### 0.2 Trusted base (as built)
 
 * Lean 4.33.0 kernel; axioms `propext`, `Classical.choice`, `Quot.sound` only (audited per theorem, every run). No `sorry`, `admit`,
   own axioms, `native_decide`, `bv_decide`, `implemented_by`.
-* Mathlib is imported **only** in `Props/C13, C14, C15, C17` (single modules: `Algebra.Order.Field.Basic`, `Analysis.Real.Sqrt`,
+* Mathlib is imported **only** in `Props/C13, C14, C15, C17` (and through C17 in `Props/C09Repr`) (single modules: `Algebra.Order.Field.Basic`, `Analysis.Real.Sqrt`,
   `Tactic.Ring/FieldSimp/Linarith/NormNum`); all `Model/` files are Mathlib-free and compile into the driver.
 * The compiled driver (Lean compiler + runtime, host `Float` arithmetic) — used for the correspondence only.
 * The hand-written correspondence harness (generators, adapters, canonicalisation, tolerance constants named in each evidence file's
